@@ -185,6 +185,18 @@ func (h *dbh) open(create bool) error {
 	return nil
 }
 
+// dirStamp fingerprints names, sizes and modification times below dir.
+func dirStamp(dir string) string {
+	var sb strings.Builder
+	_ = filepath.Walk(dir, func(p string, info os.FileInfo, err error) error {
+		if err == nil {
+			fmt.Fprintf(&sb, "%s:%d:%d;", p, info.Size(), info.ModTime().UnixNano())
+		}
+		return nil
+	})
+	return sb.String()
+}
+
 func copyDir(src, dst string) error {
 	return filepath.Walk(src, func(p string, info os.FileInfo, err error) error {
 		if err != nil {
@@ -224,12 +236,18 @@ func (h *dbh) snapshotDir(strict bool) string {
 	h.tmps = append(h.tmps, dst)
 	// leveldb's background goroutines may remove an obsolete file while the
 	// directory is being walked; copy again in that case
+	// and the copy has to be of one instant: repeat it until the leveldb
+	// directory did not change while it was being read.
 	for try := 0; ; try++ {
+		before := dirStamp(h.dir)
 		err := copyDir(h.dir, dst)
-		if err == nil {
+		if err == nil && before == dirStamp(h.dir) {
 			break
 		}
-		if try == 5 {
+		if try == 40 {
+			if err == nil {
+				break
+			}
 			panic(err)
 		}
 		_ = os.RemoveAll(dst)
